@@ -50,11 +50,26 @@ fn callee_body<const K: u8>(input: u32, p: &mut PlainParams, n: &mut u32) -> u32
     value * 1000 + *n
 }
 
-fn callee<const K: u8>(In(input): In<u32>, mut p: PlainParams, mut n: Local<u32>) -> u32 { callee_body::<K>(input, &mut p, &mut n) }
-fn callee_cmd<const K: u8>(In(input): In<u32>, mut p: PlainParams, mut n: Local<u32>) { callee_body::<K>(input, &mut p, &mut n); }
+/// A deferred buffer that is not `Commands`: applying it logs a marker (the syscall family must apply *every* buffer of the callee).
+#[derive(Default)]
+pub struct MarkBuf(Option<(u8, u32)>);
+impl bevy::ecs::system::SystemBuffer for MarkBuf
+{
+    fn apply(&mut self, _: &bevy::ecs::system::SystemMeta, _: &mut World) { if let Some((key, n)) = self.0.take() { log(Ev::SysPar { key, n, which: 1 }); } }
+}
 
-fn callee_ps<const K: u8>(In(input): In<u32>, mut ps: ParamSet<(PlainParams,)>, mut n: Local<u32>) -> u32 { let mut p = ps.p0(); callee_body::<K>(input, &mut p, &mut n) }
-fn callee_cmd_ps<const K: u8>(In(input): In<u32>, mut ps: ParamSet<(PlainParams,)>, mut n: Local<u32>) { let mut p = ps.p0(); callee_body::<K>(input, &mut p, &mut n); }
+/// Leaves one command in the callee's `ParallelCommands` and arms its custom buffer.
+fn mark_buffers<const K: u8>(par: &ParallelCommands, buf: &mut Deferred<MarkBuf>, n: u32)
+{
+    par.command_scope(|mut c| c.queue(move |_: &mut World| log(Ev::SysPar { key: K, n, which: 0 })));
+    buf.0 = Some((K, n));
+}
+
+fn callee<const K: u8>(In(input): In<u32>, mut p: PlainParams, par: ParallelCommands, mut buf: Deferred<MarkBuf>, mut n: Local<u32>) -> u32 { let r = callee_body::<K>(input, &mut p, &mut n); mark_buffers::<K>(&par, &mut buf, *n); r }
+fn callee_cmd<const K: u8>(In(input): In<u32>, mut p: PlainParams, par: ParallelCommands, mut buf: Deferred<MarkBuf>, mut n: Local<u32>) { callee_body::<K>(input, &mut p, &mut n); mark_buffers::<K>(&par, &mut buf, *n); }
+
+fn callee_ps<const K: u8>(In(input): In<u32>, mut ps: ParamSet<(PlainParams,)>, par: ParallelCommands, mut buf: Deferred<MarkBuf>, mut n: Local<u32>) -> u32 { let r = { let mut p = ps.p0(); callee_body::<K>(input, &mut p, &mut n) }; mark_buffers::<K>(&par, &mut buf, *n); r }
+fn callee_cmd_ps<const K: u8>(In(input): In<u32>, mut ps: ParamSet<(PlainParams,)>, par: ParallelCommands, mut buf: Deferred<MarkBuf>, mut n: Local<u32>) { { let mut p = ps.p0(); callee_body::<K>(input, &mut p, &mut n); } mark_buffers::<K>(&par, &mut buf, *n); }
 
 /// The callee written against a `DeferredWorld`: everything it queues goes on the world's own command queue.
 fn callee_body_dw<const K: u8>(input: u32, chg: bool, dw: &mut DeferredWorld, n: &mut u32) -> u32
